@@ -9,8 +9,10 @@ CONSTANTS
   LVs = {"l1"}
   Variant = "as_found"
   Broken = "double_new"
+  MapWindow = TRUE
   MaxPrints = 0
   MaxFree = 0
 VIEW view
+CONSTRAINT Canon
 INVARIANTS Breakdowns
 CHECK_DEADLOCK FALSE
